@@ -1534,7 +1534,7 @@ func c15Run(t *rapid.T, st *vkit.Stats) {
 			actions[fmt.Sprintf("%s~%d", a.name, i)] = a.f
 		}
 	}
-	t.Repeat(actions)
+	t.Repeat(vkit.NoStarve(actions, nil))
 
 	// ---- teardown: serve every pending member, then take the registry apart
 	m.tr("teardown")
